@@ -149,6 +149,10 @@ class CacheWorld(object):
         return d
       s.sleep_hook = hook
     self.r.callLater(60.0, self.ref_reload_tick)
+    # marks the point from which the shutdown limits are fully in force ('before shutdown'
+    # triggers, shutdownModifyUpdateSpeed among them, have all returned)
+    self.limits_marker = None
+    self.r.addSystemEventTrigger('during', 'shutdown', self.mark_limits_changed)
     self.r.thread_joiner = self.join_threads
     self.r.waker = lambda: s.wake('R')
     # schema versions in force at boot
@@ -194,6 +198,10 @@ class CacheWorld(object):
         versions.append((self.s.now, text))
     if not self.stopping:
       self.r.callLater(60.0, self.ref_reload_tick)
+    # marks the point from which the shutdown limits are fully in force ('before shutdown'
+    # triggers, shutdownModifyUpdateSpeed among them, have all returned)
+    self.limits_marker = None
+    self.r.addSystemEventTrigger('during', 'shutdown', self.mark_limits_changed)
 
   def note_reload(self, name, versions):
     p = os.path.join(os.environ['GRAPHITE_ROOT'], 'conf', name)
@@ -1023,6 +1031,9 @@ class CacheWorld(object):
     return [last] + out
 
   # ------------------------------------------------------------ C20 (writer side)
+  def mark_limits_changed(self):
+    self.limits_marker = (self.w.db.ncalls, self.s.now)
+
   def check_rates(self):
     s = self.settings
     for kind, limit, per in (('write', s.MAX_UPDATES_PER_SECOND, 1.0),
@@ -1030,6 +1041,24 @@ class CacheWorld(object):
       if limit == float('inf'):
         continue
       times = [rec[1] for rec in self.w.db.calls if rec[2] == kind]
+      # after the stop has switched the limits: every window lying entirely behind that
+      # point obeys the *new* rate and burst (MAX_UPDATES_PER_SECOND_ON_SHUTDOWN for both)
+      try:
+        shut0 = s.MAX_UPDATES_PER_SECOND_ON_SHUTDOWN
+      except Exception:
+        shut0 = None
+      if self.limits_marker is not None and shut0 is not None:
+        after = [rec[1] for rec in self.w.db.calls if rec[2] == kind and rec[0] >= self.limits_marker[0]]
+        for i in range(len(after)):
+          for j in range(i + 1, len(after)):
+            n = j - i + 1
+            allowed = float(shut0) * (after[j] - after[i]) + 2 * float(shut0)
+            if n > allowed + 1e-6:
+              self.ctx.violation('C20', 'rate-window-exceeded-after-shutdown-change', kind,
+                                 '%d %s calls in [%.6f, %.6f] after the shutdown limits (%r/s, burst %r) '
+                                 'were in force; that allows %.3f' % (n, kind, after[i], after[j], shut0,
+                                                                       shut0, allowed))
+              return
       if len(times) < 2:
         continue
       self.ctx.probe('rate_limited_%s_calls' % kind, len(times))
